@@ -110,17 +110,17 @@ fn bases(out_path: &str) {
     for padded in [true, false] {
         let pad = if padded { 0x60 } else { 0 };
         let mut a = BinArchive::new(Endian::Little);
-        // [pad] [u32 count] [2 records of 16 bytes] [bodies]
-        a.allocate_at_end(pad + 4 + 32 + 12);
+        // [pad] [u32 count] [3 records of 16 bytes] [bodies]; the third file is empty (its offset is the end of the data)
+        a.allocate_at_end(pad + 4 + 48 + 12);
         let base = pad;
         if !padded {
-            // first data word must be non-zero in the unpadded variant: it is the count (2)
+            // first data word must be non-zero in the unpadded variant: it is the count (3)
         }
-        a.write_u32(base, 2).unwrap();
+        a.write_u32(base, 3).unwrap();
         a.write_label(base, "Count").unwrap();
         a.write_label(base + 4, "Info").unwrap();
-        let bodies = base + 4 + 32;
-        for (i, (nm, sz, off)) in [("f1", 5u32, 0u32), ("日本", 3u32, 8u32)].iter().enumerate() {
+        let bodies = base + 4 + 48;
+        for (i, (nm, sz, off)) in [("f1", 5u32, 0u32), ("日本", 3u32, 8u32), ("empty", 0u32, 12u32)].iter().enumerate() {
             let r = base + 4 + 16 * i;
             a.write_string(r, Some(nm)).unwrap();
             a.write_u32(r + 4, i as u32).unwrap();
